@@ -33,11 +33,15 @@ func (c *Ctx) resumeFrom(cs *CiscoCase, st *cisco.Conf, cut string) (key, msg st
 		}
 	}
 	if d := cisco.DiffCanon(cisco.Canon(n.Conf, sc), cisco.Canon(cs.B, sc)); d != "" {
-		return "resume-state-differs|" + diffKind(d), "after the second approve: " + d, in
+		k := "resume-state-differs|" + diffKind(d)
+		if cs.Kind == "IOS" && hasRemarks(cs) {
+			k += "|acl-with-remarks"
+		}
+		return k, "after the second approve: " + d, in
 	}
 	if msg, p3 := c.Recompare(cs, n.Conf, nil); msg != "" {
 		in["script3"] = scriptText(p3.Script)
-		return "resume-recompare-nonempty|" + script2Kind(p3), msg, in
+		return "resume-recompare-nonempty|" + script2KindOn(p3, n.Conf), msg, in
 	}
 	return "", "", in
 }
